@@ -4,8 +4,12 @@ import json, os, subprocess, sys, glob
 root=os.path.dirname(os.path.dirname(os.path.abspath(__file__)))
 claimed={c['property_id'] for c in json.load(open(root+'/MANIFEST.json'))['checks']}
 only=sys.argv[1:] 
-for d in sorted(glob.glob(root+'/seeded/*')):
+shard=os.environ.get('SHARD')  # "i/n": every n-th seed starting at i
+for idx,d in enumerate(sorted(glob.glob(root+'/seeded/*'))):
     name=os.path.basename(d)
+    if shard:
+        i,n=map(int,shard.split('/'))
+        if idx % n != i: continue
     if only and not any(name.startswith(o) for o in only): continue
     prop=name.split('_')[0]
     am=json.load(open(d+'/agent_meta.json')) if os.path.exists(d+'/agent_meta.json') else {}
